@@ -22,6 +22,9 @@ func (r *runner) root() {
 	r.t0 = time.Now()
 	r.bubble = currentBubble()
 	cfg := &router.Config{}
+	if r.h.MemStats {
+		cfg.MemStatsLogSec = 3600
+	}
 	if r.h.Template {
 		cfg.RealmTemplate = r.realmConfig("")
 	}
